@@ -94,7 +94,45 @@ def regenerate_gen():
     sys.path.insert(0, os.path.join(ROOT, "translator"))
     import py_to_coq
 
-    return py_to_coq.regenerate(REPO, os.path.join(THEORIES, "Gen"))
+    st = py_to_coq.regenerate(REPO, os.path.join(THEORIES, "Gen"))
+    try:
+        import decisions
+
+        st.update({k: (None if v is None else "redundant-tie: " + str(v)) for k, v in decisions.regenerate(REPO, os.path.join(THEORIES, "Gen")).items()})
+    except Exception as e:  # noqa: BLE001 -- the translated decision functions are a REDUNDANT tie (see gen_tie below)
+        st["Decisions.v"] = f"redundant-tie: translator failed: {type(e).__name__}: {e}"
+    return st
+
+
+def gen_tie(pid, theorems):
+    """Redundant tie (DESIGN.md section 2): the decision functions translated from the source on this run (Gen/Decisions.v) are proved EQUAL,
+    for all inputs, to the hand-model definitions (Props/GenTie.v).  The theorems a property names are compiled on their own (one file per
+    property under build/gentie) so that one broken equation does not hide the others.  Returns {theorem: "checked" | "lost: why"}."""
+    src = open(os.path.join(THEORIES, "Props", "GenTie.v")).read()
+    m0 = re.search(r"^\(\* ---- ", src, flags=re.M)
+    head = src[:m0.start()] if m0 else src[:src.index("Theorem")]
+    out = {}
+    ok, log = make(["Gen/Decisions.vo", "Proofs/GenTieLemmas.vo", "Model/AP.vo", "Model/Matching.vo", "Model/Filter.vo", "Model/Clear.vo", "Model/PassFail.vo"])
+    d = os.path.join(BUILD, "gentie")
+    os.makedirs(d, exist_ok=True)
+    for t in theorems:
+        if not ok:
+            out[t] = "lost: Gen/Decisions.v or its lemmas do not compile: " + log[-300:].replace("\n", " ")
+            continue
+        m = re.search(r"^Theorem " + re.escape(t) + r"\b.*?^Print Assumptions " + re.escape(t) + r"\.", src, flags=re.M | re.S)
+        if not m:
+            out[t] = "lost: theorem not found in Props/GenTie.v"
+            continue
+        path = os.path.join(d, f"{pid}_{t}.v")
+        with open(path, "w") as f:
+            f.write(head + "\n" + m.group(0) + "\n")
+        rc, o = sh(["coqc", "-Q", THEORIES, "PE", "-w", "-notation-overridden,-deprecated-hint-without-locality", path], timeout=600, cwd=d)
+        if rc == 0 and "Closed under the global context" in o and "Axioms:" not in o:
+            out[t] = "checked"
+        else:
+            mm = re.search(r"(Error:.*)", o, flags=re.S)
+            out[t] = "lost: " + (mm.group(1) if mm else o[-400:]).replace("\n", " ")[:400]
+    return out
 
 
 def ensure_makefile():
@@ -418,7 +456,7 @@ def run_check(prop, tier, seed):
     with BuildLock():
         gen = regenerate_gen()
         for fn, err in gen.items():
-            if err and not str(err).startswith("inferred:") and fn in getattr(prop, "gen_files", []):
+            if err and not str(err).startswith(("inferred:", "redundant-tie:")) and fn in getattr(prop, "gen_files", []):
                 broken.append({"kind": "translator", "file": fn, "error": err})
         cov["translator"] = {k: ("ok" if v is None else v) for k, v in gen.items() if k in getattr(prop, "gen_files", [])}
         bad = forbidden_constructs()
@@ -489,6 +527,16 @@ def run_check(prop, tier, seed):
             foreign = None if listed is None else [a for a in listed if not a.startswith("Coq.")]
             if rcc != 0 or listed is None or foreign:
                 broken.append({"kind": "axiom", "theorem": mod, "axiom": "coqchk: " + ("; ".join(foreign) if foreign else summ[-500:])})
+    # 1b. redundant tie: decision functions translated from the source = hand model (never a broken obligation by itself: the property's
+    #     proof is theorems about the hand model + the correspondence; a lost equation triggers the search for a failing input below)
+    lost_ties = {}
+    if getattr(prop, "gen_tie_theorems", None):
+        with BuildLock():
+            gt = gen_tie(pid, prop.gen_tie_theorems)
+        cov["redundant_tie"] = {"what": "Gen/Decisions.v (translated from the source on this run by translator/decisions.py) = hand model, for all inputs "
+                                        "(Props/GenTie.v; each theorem closed under the global context)",
+                                "translator": gen.get("Decisions.v") or "ok", "theorems": gt}
+        lost_ties = {k: v for k, v in gt.items() if v != "checked"}
     cov["theorems"] = thms
     cov["nonvacuity_examples"] = examples
     cov["print_assumptions"] = {n: t for n, t in (pa or [])}
@@ -619,6 +667,23 @@ def run_check(prop, tier, seed):
                                       "note": "a proof obligation / correspondence / translation no longer checks; the property is no longer shown to hold"})
             out_lines.append(f"VIOLATION property={pid} replay={path} no-failing-input-found")
         rc = 1
+    elif lost_ties:
+        # the translated definition no longer equals the hand model: either the source changed behaviour (then the correspondence above
+        # or this wider search exhibits an input) or it was rewritten harmlessly beyond what the translator / the tactic absorbs
+        found = None
+        try:
+            found = prop.search(random.Random(seed + 1), 90 if tier == "quick" else 600)
+        except Exception as e:  # noqa: BLE001
+            cov["redundant_tie"]["search_error"] = f"{type(e).__name__}: {e}"
+        if found and not any(prop.known_match(f, found[0].name, found[1], found[2], found[3]) for f in known):
+            c, k, o, msg = found
+            path = write_replay(pid, {"property": pid, "correspondence": c.name, "case": k, "observed": o, "what": msg,
+                                      "lost_redundant_tie": lost_ties, "seed": seed, "tier": tier})
+            out_lines.append(f"VIOLATION property={pid} replay={path}")
+            rc = 1
+        else:
+            cov["redundant_tie"]["note"] = ("equation(s) lost and no failing input found by the correspondence or the wider search: the property is still "
+                                            "shown to hold by the hand-model theorems + correspondence of this run; the tie is by correspondence only")
 
     # 5. evidence
     n_thm = len(thms)
